@@ -81,7 +81,9 @@ def samples(thorough=False):
             "+.5e1", "12e0",
             # the ends of the exact integer range (fixed-width representation): every in-range literal is read, with either sign
             "2147483647", "+2147483647", "-2147483647", "-2147483648", "-0", "+0", "000", "-2147483648/3", "2147483647/2", "1/4294967295",
-            "-1/2147483648"]
+            "-1/2147483648",
+            # a denominator is read as a number, not as text: leading zeros do not make it zero
+            "1/02", "3/010", "-7/05", "1/0", "5/00", "-3/000"]
     seen, uniq = set(), []
     for t in out:
         if t not in seen:
